@@ -6,7 +6,12 @@ A scenario is {"tpb": int, "U": units per beat, "config": {...}, "callbacks": [{
 "ops": [...]}.  All times are integers in units (1/U beat); they are converted to the correctly rounded float
 of units/U, i.e. what a user typing the decimal/fraction would pass.  Optional "floats": {"<position in ops>": {"q": hex, "d": hex}}
 gives the quantize / delay argument of that top-level schedule or update as the double itself (float.hex), for callers that
-write a time as a float expression (a product or a sum) whose value is not the correctly rounded one.  Observation of every operation: device
+write a time as a float expression (a product or a sum) whose value is not the correctly rounded one.
+Optional config "devices": K > 1 gives the timeline K recording output devices.  A channel number c of the scenario then means
+MIDI channel c % 16 on device c // 16: a track is scheduled on the device of its stream's first channel (or on "op_device":
+{"<position in ops>": d}, which also is the output_device argument of a schedule(name=..., replace=True) that meets an existing
+track), events carry channel c % 16, and device d reports every call with channel + 16 * d - so the observation keeps its
+format and is per device.  Stream forms "blank_none" / "blank_dict" pass None / {} as the events (a track without events).  Observation of every operation: device
 calls made (recording OutputDevice), result (ok / stop = StopIteration / exc / limit / notfound), ids of the
 tracks in Timeline.tracks in order.  Only operations with a non-empty observation are listed, with their index.
 """
@@ -17,11 +22,24 @@ from isobar.exceptions import TrackLimitReachedException, TrackNotFoundException
 
 
 class Rec(iso.OutputDevice):
-    def __init__(self, fail_at):
+    def __init__(self, fail_at, hub=None, tag=0):
         super().__init__()
-        self.calls = []
+        self._calls = []
         self.n = 0
         self.fail_at = fail_at
+        self.hub = hub            # the device whose call list collects the calls of all devices (None: this one)
+        self.tag = tag            # added to every reported channel: 16 * device index
+
+    @property
+    def calls(self):
+        return self._calls if self.hub is None else self.hub._calls
+
+    @calls.setter
+    def calls(self, v):
+        if self.hub is None:
+            self._calls = v
+        else:
+            self.hub._calls = v
 
     @property
     def ticks_per_beat(self):
@@ -35,16 +53,16 @@ class Rec(iso.OutputDevice):
         self.calls.append(c)
 
     def note_on(self, note=60, velocity=64, channel=0):
-        self._emit(["on", note, velocity, channel])
+        self._emit(["on", note, velocity, channel + self.tag])
 
     def note_off(self, note=60, channel=0):
-        self.calls.append(["off", note, channel])
+        self.calls.append(["off", note, channel + self.tag])
 
     def control(self, control=0, value=0, channel=0):
-        self._emit(["ctl", control, value, channel])
+        self._emit(["ctl", control, value, channel + self.tag])
 
     def program_change(self, program=0, channel=0):
-        self._emit(["pgm", program, channel])
+        self._emit(["pgm", program, channel + self.tag])
 
 
 class Scripted(iso.Pattern):
@@ -82,6 +100,11 @@ class Driver:
         if lat:
             self.dev.added_latency_seconds = self.beats(lat) * 60.0 / cfg.get("tempo", 120)
         self.created = []
+        self.ndev = int(cfg.get("devices", 1))
+        self.devs = [self.dev] + [Rec(None, hub=self.dev, tag=16 * i) for i in range(1, self.ndev)]
+        for d in self.devs[1:]:
+            self.tl.add_output_device(d)
+        self.op_device = sc.get("op_device") or {}
         self.floats = sc.get("floats") or {}
         self.cb_fns = [self.make_cb(i, cb) for i, cb in enumerate(sc.get("callbacks", []))]
 
@@ -140,20 +163,39 @@ class Driver:
                 d["gate"] = tuple(self.frac(g) for g in gate)
             else:
                 d["gate"] = self.frac(gate)
-            d["channel"] = tuple(chan) if isinstance(chan, list) else chan
+            d["channel"] = tuple(self.ch(c) for c in chan) if isinstance(chan, list) else self.ch(chan)
         elif k == "action":
             d["action"] = self.cb_fns[ev["cb"]]
         elif k == "control":
-            d["control"], d["value"], d["channel"] = ev["ctl"], ev["val"], ev["chan"]
+            d["control"], d["value"], d["channel"] = ev["ctl"], ev["val"], self.ch(ev["chan"])
         elif k == "program":
-            d["program_change"], d["channel"] = ev["prog"], ev["chan"]
+            d["program_change"], d["channel"] = ev["prog"], self.ch(ev["chan"])
         else:
             raise ValueError("bad event kind %r" % k)
         return d
 
+    def ch(self, c):
+        return c % 16 if self.ndev > 1 else c
+
+    def device_of(self, s, pos):
+        """the output device of a schedule(): op_device of this top-level op, else the device of the stream's first channel"""
+        if self.ndev <= 1:
+            return None
+        if pos is not None and str(pos) in self.op_device:
+            return self.devs[self.op_device[str(pos)]]
+        for it in s["items"]:
+            c = it.get("chan") if isinstance(it, dict) else None
+            if c is not None:
+                return self.devs[(c[0] if isinstance(c, list) else c) // 16]
+        return None
+
     def stream(self, s):
-        items = [self.event_dict(e) for e in s["items"]]
         form = s.get("form", "scripted")
+        if form == "blank_none":
+            return None
+        if form == "blank_dict":
+            return {}
+        items = [self.event_dict(e) for e in s["items"]]
         if form == "psequence" and "raise" not in items:
             return iso.PSequence(items, 1) if not s["cyclic"] else iso.PSequence(items)
         if form == "pdict" and "raise" not in items and items and all(set(i) == set(items[0]) for i in items):
@@ -179,8 +221,12 @@ class Driver:
             _, s, q, d, count, rwd, name, replace = o
             q, d = self.qd_floats(q, d, pos)
             try:
+                kw = {}
+                dev = self.device_of(s, pos)
+                if dev is not None:
+                    kw["output_device"] = dev
                 tr = tl.schedule(self.stream(s), quantize=q, delay=d, count=count,
-                                 remove_when_done=rwd, name=None if name is None else "n%d" % name, replace=replace)
+                                 remove_when_done=rwd, name=None if name is None else "n%d" % name, replace=replace, **kw)
             except TrackLimitReachedException:
                 if inside:
                     raise
